@@ -1,7 +1,8 @@
 ---------------------------- MODULE RegexGen ----------------------------
 (* C20 case generation, exhaustive part: the state space of RegexMC (every SRE of the bounded
    grammar x every subject over Sigma up to MaxLen) is enumerated by TLC and every state is
-   written out as one conformance case  CASE [sre, subject]  (sets become JSON arrays).      *)
+   written out as one conformance case  CASE [sre, subject]  (sets become JSON arrays).
+   SREs outside Regex!Tractable (huge classes inside w/nocase: minutes of compile time) are skipped. *)
 EXTENDS RegexMC, Json
-Dump == PrintT(<<"CASE", ToJson(<<r, s>>)>>)
+Dump == Tractable(r) => PrintT(<<"CASE", ToJson(<<r, s>>)>>)
 =========================================================================
